@@ -60,6 +60,39 @@ def check(run, prog, tier):
     run.rule("C09-J", "a component is added to what the function holds, and replaces it only when the function holds nothing: the "
                       "test that sends an addition to the initialiser is true for the uninitialised function only", minimum=1)
     rule_J(run, prog)
+    run.rule("C09-K", "containers kept per bath function are separate objects: no list built by repeating one mutable element "
+                      "(`[[]]*n` is n names for one list)", minimum=10)
+    rule_K(run, prog)
+
+
+def rule_K(run, prog):
+    """'... carry consistent parameters': the matrix of bath functions records, per function, the places (n, m) it occupies;
+    a molecule mapped on the matrix finds its bath through that record.  `[[]]*(nof+1)` makes every entry the same list -
+    after two functions have been set, every entry lists the places of both and the look-up answers with the last
+    function for any place.  Package-wide: a list repetition `[e]*n` has an immutable element (None, a number, a string,
+    a name bound to one) - never a list, dict or set display or a constructor call."""
+    rid = "C09-K"
+    n = 0
+    for f in prog.all_functions():
+        if ".tests." in f.qualname or ".wizard." in f.qualname:
+            continue
+        for x in walk_no_nested(f.node):
+            if isinstance(x, ast.BinOp) and isinstance(x.op, ast.Mult):
+                lst = x.left if isinstance(x.left, ast.List) else (x.right if isinstance(x.right, ast.List) else None)
+                if lst is None or len(lst.elts) != 1:
+                    continue
+                n += 1
+                prog.consulted.add(f.relpath)
+                e = lst.elts[0]
+                shared = isinstance(e, (ast.List, ast.Dict, ast.Set, ast.ListComp, ast.DictComp)) or \
+                    (isinstance(e, ast.Call) and (call_name(e) or "").split(".")[-1] in ("list", "dict", "set", "zeros", "array", "empty"))
+                run.obligation(rid, f.short, not shared, key="separate-containers:" + norm(x)[:40],
+                               message="%s builds `%s`: every entry is the same %s object, what is recorded for one function is recorded "
+                                       "for all (in the matrix of bath functions: get_index_by_where answers with the last function "
+                                       "for every place, a molecule mapped on the matrix is handed another molecule's bath)"
+                                       % (f.short, norm(x)[:50], type(e).__name__.lower()), loc=f.loc(x), sample={"expression": norm(x)[:60]})
+    if n < 10:
+        raise AnalysisError("C09-K: only %d list repetitions found in the package (14 confirmed)" % n)
 
 
 def rule_J(run, prog):
